@@ -1,7 +1,7 @@
 (* C13 -- statements only; see DESIGN.md section 6 C13.  Theorems are added as the proofs land;
    the witnesses below are evaluated in the kernel on the whole-parser model. *)
 From Coq Require Import String.
-From MdIt Require Import Prims Tables Tree Render Core Dump Dispatch.
+From MdIt Require Import Prims Tables NormRef Block Tree Render Core Dump Dispatch NormRefTables NormRefProofs.
 Local Open Scope string_scope.
 Local Open Scope list_scope.
 Local Open Scope N_scope.
@@ -20,3 +20,44 @@ Example C13_witness_first_wins :
 [Foo Bar]: /second" = bs "<p><a href=""/first"">FOO   bar</a></p>
 ".
 Proof. vm_compute. reflexivity. Qed.
+
+(* FULL STATEMENT (not proved end to end; decided on every run by the resolution oracle and the
+   model/implementation correspondence): a reference use resolves iff a definition with the same
+   normalised label exists anywhere in the document, to the first such definition.
+
+   PROVED PARTS.  Label normalisation = trim, collapse whitespace runs, then per character
+   upper(lower(c)) (n1), over code points; facts about the case tables are established by a finite
+   sweep over the tables generated from the implementation. *)
+
+(* normalising twice = normalising once: definitions normalise their label twice, uses once,
+   so this is what makes a definition reachable at all *)
+Theorem C13_normalize_idempotent : forall l, normalize_cps (normalize_cps l) = normalize_cps l.
+Proof. exact normalize_idempotent. Qed.
+
+(* letter case is ignored: every character, its lowercase and its uppercase expansion have the same
+   normal form (includes final sigma, sharp s, dotted I, ligatures, Kelvin/Angstrom/Ohm signs) *)
+Theorem C13_case_lower : forall c, n1s (lower_cp c) = n1 c.
+Proof. exact n1_lower. Qed.
+Theorem C13_case_upper : forall c, n1s (upper_cp c) = n1 c.
+Proof. exact n1_upper. Qed.
+
+(* every White_Space character counts as a space, runs collapse, ends are trimmed *)
+Theorem C13_whitespace_kind : forall l, normalize_cps (map ws_to_space l) = normalize_cps l.
+Proof. exact whitespace_kind_irrelevant. Qed.
+Theorem C13_whitespace_normal_form : forall l, nf (W l) = true /\ W (W l) = W l.
+Proof. intros l. split; [apply W_nf|apply W_idempotent]. Qed.
+
+(* the per-document map keeps the first definition of a key (entry().or_insert_with) *)
+Theorem C13_first_definition_wins : forall defs m k,
+  ref_get (fold_left (fun m (d : str * refentry) => ref_insert_first m (fst d) (snd d)) defs m) k =
+  match ref_get m k with Some x => Some x | None => first_def defs k end.
+Proof. exact first_definition_wins. Qed.
+
+Example C13_nonvacuous :
+  normalize_cps [0x3A3; 32; 9; 0x3C2; 0xDF; 0x2126] = [0x3A3; 32; 0x3A3; 83; 83; 0x3A9].
+Proof. vm_compute. reflexivity. Qed.
+
+Print Assumptions C13_normalize_idempotent.
+Print Assumptions C13_case_lower.
+Print Assumptions C13_whitespace_kind.
+Print Assumptions C13_first_definition_wins.
